@@ -126,7 +126,11 @@ def make_sampler(spec, shared_domains=None, shared_x=None):
         st = spec["t"]
         T = tp.domains.Interval(tp.spaces.R1("t"), 0.0, 2.0)
         ct = {"random": S.RandomUniformSampler, "grid": S.GridSampler}[st["kind"]]
-        s = s * ct(T, n_points=st["n"])
+        if spec.get("static_factor"):
+            # the x-factor frozen on its own (it then receives the partner's points as parameters at every call)
+            s = s.make_static() * ct(T, n_points=st["n"]).make_static()
+        else:
+            s = s * ct(T, n_points=st["n"])
     if spec.get("static") == "inf":
         s = s.make_static()
     elif spec.get("static"):
@@ -572,7 +576,8 @@ def run_c14(case):
                                         other=[specs[j]["kind"] for j in builds if j != i]))
                     # (c) repeatability with a never-resampling static sampler
                     smp = specs[i].get("sampler") or {}
-                    if isinstance(la, float) and smp.get("static") == "inf" and specs[i]["kind"] not in ("data",) and op.get("repeat"):
+                    if isinstance(la, float) and (smp.get("static") == "inf" or smp.get("static_factor")) \
+                            and specs[i]["kind"] not in ("data",) and op.get("repeat"):
                         sim.reseed(H(case["rng"], "op", step, "again"))
                         la2 = float(builds[i]["cond"](device="cpu", iteration=it))
                         stats["repeats"] = stats.get("repeats", 0) + 1
